@@ -398,7 +398,35 @@ def r3(ctx):
                "(occupancy ^ own king ^ candidate square) & between(candidate, attacker) == empty -> attacked (the king must be lifted off the board)", site=site,
                sample="occupancy with the king lifted")
         fin = {canon(lf.ret) for lf in mine if lf.ret[0] == "bin"}
-        ctx.ob(f"adjacent attackers[{turn}]", fin == {canon(final)}, f"is_legal_king_position ({turn}) ends with {[T.show(f_)[:200] for f_ in fin]}; expected no enemy king/knight/pawn on "
+        fin_ok = fin == {canon(final)}
+        if not fin_ok:
+            # any arrangement of the three emptiness tests (`a.none() && b.none() && c.none()`, early returns, ...): after the ray scan the
+            # function must answer true exactly when all three attacker sets are empty - decided over the 8 emptiness combinations
+            import itertools
+            parts = [C.AND(word(("app", "chess_lookup::king_moves", (kp,))), C.pieces("King"), opp),
+                     C.AND(word(("app", "chess_lookup::knight_moves", (kp,))), C.pieces("Knight"), opp),
+                     C.AND(word(("app", "chess_lookup::pawn_attacks_moves", (kp, fld(board, "turn")))), C.pieces("Pawn"), opp)]
+            subsets = {canon(C.OR(*[parts[i] for i in s_]) if len(s_) > 1 else parts[s_[0]]): s_ for r_ in (1, 2, 3) for s_ in itertools.combinations(range(3), r_)}
+            post = [lf for lf in rets if lf.known.get(fld(board, "turn")) == turn and lf.ret[0] != "loopback"
+                    and any(t[0] == "discr" and t[1][0] == "app" and t[1][1] == NEXT and v == "None" for t, v in lf.cond)]
+            def ztest(t, v):
+                """(subset of the three attacker sets, expected emptiness) of a condition / result `x == 0`, or None"""
+                zt = zero_test(t, v)
+                return (subsets[zt[0]], zt[1] == "zero") if zt[1] in ("zero", "nonzero") and zt[0] in subsets else None
+            fin_ok = bool(post)
+            for z in itertools.product((True, False), repeat=3):          # z[i]: attacker set i is empty
+                answers = []
+                for lf in post:
+                    tests = [ztest(t, v) for t, v in lf.cond if t[0] == "bin" and t[1] in ("Eq", "Ne") and T.I(0, "u64") in (t[2], t[3]) and zero_test(t, v)[0] in subsets]
+                    if any(all(z[i] for i in s_) != e_ for s_, e_ in tests):
+                        continue
+                    if T.is_const(lf.ret):
+                        answers.append(bool(lf.ret[1]))
+                    else:
+                        r_ = ztest(lf.ret, 1) if lf.ret[0] == "bin" else None
+                        answers.append(None if r_ is None else (all(z[i] for i in r_[0]) == r_[1]))
+                fin_ok = fin_ok and bool(answers) and all(a_ is not None and a_ == all(z) for a_ in answers)
+        ctx.ob(f"adjacent attackers[{turn}]", fin_ok, f"is_legal_king_position ({turn}) ends with {[T.show(f_)[:200] for f_ in fin]}; expected no enemy king/knight/pawn on "
                "king_moves/knight_moves/pawn_attacks_moves(candidate, own colour)", site=site, sample="(king|knight|pawn attackers) == 0")
     # ---- king_legals
     key = PT + "King::king_legals"
@@ -420,6 +448,29 @@ def r3(ctx):
                 dom_ok = any(tt[0] == "discr" and tt[1][0] == "app" and tt[1][1] == NEXT and canon(iter_domain(tt[1][2][0][1] if tt[1][2][0][0] == "refv" else tt[1][2][0])) ==
                              canon(eng.binop("BitAnd", km, word(mask))) for tt, vv in lf.cond)
                 filt = filt or (dom_ok and t[2][0] in (("refv", board), board))
+    if not filt:
+        # adaptor form: moves = (king_moves(king) & mask).iter().filter(|dest| board.is_legal_king_position(dest)).collect::<BitBoard>()
+        for lf in rets + loops:
+            for t, v in lf.cond:
+                for s_ in subterms(t):
+                    if not (s_[0] == "app" and "Iterator>::collect::<chess_bitboard::BitBoard>" in s_[1] and len(s_[2]) == 1):
+                        continue
+                    f_ = s_[2][0]
+                    if not (f_[0] == "app" and "Iterator>::filter::<" in f_[1] and len(f_[2]) == 2 and f_[2][1][0] == "closure"):
+                        continue
+                    it, cl_ = f_[2]
+                    caps = cl_[2]
+                    try:
+                        dom_ok = canon(iter_domain(it)) == canon(eng.binop("BitAnd", km, word(mask)))
+                        clv = T.Engine(P, opaque={LEGAL_KING}).tabulate(cl_[1])
+                    except (T.NotTabulable, KeyError, IndexError, TypeError):
+                        continue
+                    env_, item = ("obj", ("param", 0, "a0")), ("param", 1, "a1")
+                    cap_board = [i for i, c in enumerate(caps) if c in (("refv", board), board)]
+                    pred_ok = (len(clv) == 1 and not clv[0].cond and clv[0].ret[0] == "app" and clv[0].ret[1] == LEGAL_KING and len(cap_board) == 1
+                               and clv[0].ret[2][0] in (("refv", ("obj", ("field", env_, cap_board[0]))), ("obj", ("field", env_, cap_board[0])), ("field", env_, cap_board[0]))
+                               and clv[0].ret[2][1] in (("obj", item), item))
+                    filt = filt or (dom_ok and pred_ok)
     ctx.ob("king step filter", filt, "king_legals does not test is_legal_king_position(board, dest) for every dest of king_moves(king) & mask", site=site, sample="for dest in king_moves & mask")
     # castling: every path that adds CASTLE_MOVES is guarded
     cm_const = P.value_u64s("chess_lookup::CASTLE_MOVES")[0]
@@ -445,23 +496,26 @@ def r3(ctx):
     cl = [k for k in P.fns if k.startswith(key + "::{closure")]
     ok_cl = any(any(t["f"].get("fn") == LEGAL_KING for _, t in P.calls(k)) for k in cl)
     ctx.ob("castling transit squares safe", ok_cl, "the castling path-safety test does not call is_legal_king_position", site=site)
-    # constants used: per side (files, safe files)
+    # constants used: CASTLE_MOVES, and per side the (files, safe files) data - compared by value, wherever the table is written
     body = P.body(key)
-    consts = sorted({o.get("from", "") for blk in body["blocks"] for s in (blk["s"] + [blk["t"]]) for o in __import__("analysis.facts", fromlist=["x"]).walk_operands(s) if o.get("k") == "const" and o.get("from", "").startswith("chess_lookup::")})
-    need = {"chess_lookup::KINGSIDE_CASTLE_FILES", "chess_lookup::KINGSIDE_CASTLE_SAFE_FILES", "chess_lookup::QUEENSIDE_CASTLE_FILES", "chess_lookup::QUEENSIDE_CASTLE_SAFE_FILES", "chess_lookup::CASTLE_MOVES"}
-    ctx.ob("castling constants", need <= set(consts), f"king_legals uses constants {consts}; expected {sorted(need)} (values checked by C09.R2)", site=site, sample=consts)
+    walk = __import__("analysis.facts", fromlist=["x"]).walk_operands
+    consts = sorted({o.get("from", "") for blk in body["blocks"] for s in (blk["s"] + [blk["t"]]) for o in walk(s) if o.get("k") == "const" and o.get("from", "").startswith("chess_lookup::")})
+    cm_used = "chess_lookup::CASTLE_MOVES" in consts or any(s_ == T.I(cm_const, "u64") for lf in rets + loops for x in [lf.ret] + [t for t, _ in lf.cond] for s_ in subterms(x))
+    ctx.ob("castling constants", cm_used, f"king_legals does not use chess_lookup::CASTLE_MOVES (constants used: {consts}); values checked by C09.R2", site=site, sample=consts)
     # the (side, files, safe) triples pair king side with king-side files
-    pairs = []
-    for blk in body["blocks"]:
-        for s in blk["s"]:
-            r = s.get("r", {})
-            if r.get("k") == "agg" and r.get("ak") == "tuple" and len(r["ops"]) == 3:
-                d = [k2.describe_operand(P, body, o) for o in r["ops"]]
-                side = d[0][2] if d[0][0] == "agg" else None
-                froms = [o.get("from", "") for o in r["ops"][1:]]
-                pairs.append((side, tuple(f.rsplit("::", 1)[-1] for f in froms)))
-    want_pairs = {("King", ("KINGSIDE_CASTLE_FILES", "KINGSIDE_CASTLE_SAFE_FILES")), ("Queen", ("QUEENSIDE_CASTLE_FILES", "QUEENSIDE_CASTLE_SAFE_FILES"))}
-    ctx.ob("castling side/files pairing", set(pairs) == want_pairs, f"castling data pairs {pairs}; expected {sorted(want_pairs)}", site=site, sample=pairs)
+    val = lambda n: P.value_u64s("chess_lookup::" + n)[0]
+    bbc = lambda v: ("adt", "chess_bitboard::BitBoard", "BitBoard", (T.I(v, "u64"),))
+    sd = lambda n: ("adt", "chess_bitboard::side::Side", n, ())
+    want_pairs = {(sd("King"), bbc(val("KINGSIDE_CASTLE_FILES")), bbc(val("KINGSIDE_CASTLE_SAFE_FILES"))),
+                  (sd("Queen"), bbc(val("QUEENSIDE_CASTLE_FILES")), bbc(val("QUEENSIDE_CASTLE_SAFE_FILES")))}
+    pairs = set()
+    for lf in rets + loops:
+        for t, v in lf.cond:
+            for s_ in subterms(t):
+                if s_[0] == "tuple" and len(s_[1]) == 3 and s_[1][0][0] == "adt" and s_[1][0][1] == "chess_bitboard::side::Side":
+                    pairs.add(tuple(s_[1]))
+    ctx.ob("castling side/files pairing", pairs == want_pairs, f"castling data triples {[tuple(T.show(x)[:40] for x in p_) for p_ in sorted(pairs)]}; expected (King, KINGSIDE_CASTLE_FILES, KINGSIDE_CASTLE_SAFE_FILES) and "
+           "(Queen, QUEENSIDE_CASTLE_FILES, QUEENSIDE_CASTLE_SAFE_FILES) by value", site=site, sample=len(pairs))
 
 
 def C_all(P, board):
@@ -484,6 +538,14 @@ def r6(ctx):
     ctx.bulk("premise obligations (pin/check cache)", c.obligations, [])
     for v in c.violations:
         ctx.ob(f"premise {v.rule}:{v.key}"[:120], False, "move generation filters by `checkers` and `pinned`; their computation is no longer exact: " + v.what[:300], site=getattr(v, "site", None))
+
+
+def zero_test(t, v):
+    """a path condition normalised: `x == 0` / `x != 0` / `0 == x`, taken or not, as (canonical x, "zero" | "nonzero"); anything else as it is"""
+    if t[0] == "bin" and t[1] in ("Eq", "Ne") and v in (0, 1) and T.I(0, "u64") in (t[2], t[3]):
+        x = t[2] if t[3] == T.I(0, "u64") else t[3]
+        return (canon(x), "zero" if (t[1] == "Eq") == bool(v) else "nonzero")
+    return (canon(t), v)
 
 
 @rule("C01.R5", "en passant: legality decided on the position after the capture")
@@ -533,9 +595,9 @@ def r5(ctx):
             "no rook/queen attacker": (eng.binop("Ne", C.AND(word(("app", "chess_lookup::rook_moves", (ksq, bb(occ)))), rooks), T.I(0, "u64")), 0),
             "no bishop/queen attacker": (eng.binop("Ne", C.AND(word(("app", "chess_lookup::bishop_moves", (ksq, bb(occ)))), bishops), T.I(0, "u64")), 0),
         }
-        have = {(canon(t), v) for t, v in lf.cond}
+        have = {zero_test(t, v) for t, v in lf.cond}
         for nm, (t, v) in want_tests.items():
-            ok = (canon(t), v) in have
+            ok = zero_test(t, v) in have
             ctx.ob(f"ep[{tname}] {nm}#{n}", ok, f"en-passant capture ({tname} to move) is generated without the test `{nm}` in the form the rules require "
                    f"(attackers exclude the captured pawn; occupancy has both pawns removed and the target filled): missing {T.show(t)[:220]} == {v}", site=site,
                    sample={"test": nm} if n == 1 else None)
